@@ -1,7 +1,1667 @@
-//! C03: not implemented yet.
+//! C03: WAL replay applies exactly the longest valid frame prefix.
+//!
+//! Oracle: a shadow log (per segment: list of `(file_id, page_no, image-id, kind)` in write order)
+//! driven in lock-step with the real `turdb::storage::Wal`. Every 16 KiB page image is filled with
+//! a unique 64-bit id, so a recovered page names the write it came from.
+//!
+//! Build phase: random sequences of frame writes (all public write variants), `rotate_segment`,
+//! `truncate`, `checkpoint`, the Database-style "rotate + replay closed + remove closed" cycle,
+//! drop + `Wal::open`, torn-tail crash + `Wal::open`, sync-mode changes; observations through
+//! `recover_for_file`, `replay_segments_to_storage`, `recover` (single-file logs) and `read_page`.
+//! An independent byte-level audit of the segment files (own CRC-64/ECMA-182) is used only to
+//! *name the cause* of a behavioural mismatch and to decide which logs are fit for the corruption
+//! phase; it never produces a verdict by itself.
+//!
+//! Corruption phase (only on logs whose bytes equal the shadow layout): every frame boundary
+//! +-{0,1,31,32,33,8192} bytes is used as a truncation point of every segment file, plus sampled
+//! byte flips, 4 KiB zero fills, zero tails, appended garbage and appended zeros. Expected result:
+//! exactly the frames of the longest prefix (across segments, in write order) whose bytes are
+//! intact.
+use crate::report::{catch, panic_site, Ctx};
+use crate::rng::{fnv, Rng};
 use crate::Args;
+use serde_json::{json, Value};
+use std::collections::{BTreeMap, BTreeSet, HashMap, HashSet};
+use std::path::{Path, PathBuf};
+use turdb::database::dirty_tracker::ShardedDirtyTracker;
+use turdb::storage::{MmapStorage, SyncMode, Wal, WalSegment, WalStoragePerTable};
 
-pub fn run(_a: &Args) -> i32 {
-    println!("INCONCLUSIVE property=C03 reason=check not implemented yet");
-    2
+const HDR: usize = 32;
+const PAGE: usize = 16384;
+const FRAME: usize = HDR + PAGE;
+const NFILES: u64 = 4;
+const NPAGES: u32 = 8;
+const SENTINEL: u64 = 0xEEEE_EEEE_EEEE_EEEE;
+const UNDO_TAG: u64 = 0x02 << 56;
+const LANES: u64 = 8;
+const DELTAS: [i64; 11] = [0, 1, -1, 31, -31, 32, -32, 33, -33, 8192, -8192];
+
+// ------------------------------------------------------------------------------------------------
+// independent CRC-64/ECMA-182 (poly 0x42F0E1EBA9EA3693, init 0, no reflection, xorout 0)
+
+fn crc_table() -> [u64; 256] {
+    let mut t = [0u64; 256];
+    for i in 0..256u64 {
+        let mut c = i << 56;
+        for _ in 0..8 {
+            c = if c & (1 << 63) != 0 { (c << 1) ^ 0x42F0_E1EB_A9EA_3693 } else { c << 1 };
+        }
+        t[i as usize] = c;
+    }
+    t
+}
+
+fn crc64(t: &[u64; 256], mut c: u64, data: &[u8]) -> u64 {
+    for b in data {
+        c = t[(((c >> 56) as u8) ^ *b) as usize] ^ (c << 8);
+    }
+    c
+}
+
+// ------------------------------------------------------------------------------------------------
+// page images
+
+fn image(img: u64) -> Vec<u8> {
+    let mut v = Vec::with_capacity(PAGE);
+    for _ in 0..PAGE / 8 {
+        v.extend_from_slice(&img.to_le_bytes());
+    }
+    v
+}
+
+#[derive(Clone, Copy, PartialEq, Eq, Debug)]
+enum PObs {
+    Untouched,
+    Zero,
+    Img(u64),
+    Garbled,
+}
+
+fn decode(page: &[u8]) -> PObs {
+    let first = u64::from_le_bytes(page[..8].try_into().unwrap());
+    for c in page.chunks_exact(8) {
+        if u64::from_le_bytes(c.try_into().unwrap()) != first {
+            return PObs::Garbled;
+        }
+    }
+    match first {
+        SENTINEL => PObs::Untouched,
+        0 => PObs::Zero,
+        x => PObs::Img(x),
+    }
+}
+
+fn pobs_str(p: PObs) -> String {
+    match p {
+        PObs::Untouched => "untouched".into(),
+        PObs::Zero => "all-zero page".into(),
+        PObs::Img(x) => format!("image {:#x}", x),
+        PObs::Garbled => "garbled".into(),
+    }
+}
+
+// ------------------------------------------------------------------------------------------------
+// shadow log
+
+#[derive(Clone, Debug)]
+struct Fr {
+    fid: u64,
+    page: u32,
+    db_size: u32,
+    img: u64, // 0 = an all-zero frame (only used by defect emulations)
+    api: u8,
+    /// number of frames the segment held when the Wal instance that wrote this frame was opened
+    /// (0 for created/rotated segments): slot index under "cursor at 0" = index - open_len
+    open_len: usize,
+}
+
+#[derive(Default)]
+struct Shadow {
+    segs: BTreeMap<u64, Vec<Fr>>,
+    cur: u64,
+    all: HashMap<u64, (u64, u32)>,
+    discarded: HashSet<u64>,
+    open_seg: u64,
+    open_len: usize,
+    opened_by_open: bool,
+    closed: Vec<u64>,
+    trunc_since_open: bool,
+    truncs: u64,
+    zero_tail_injected: bool,
+    garbage_tail_injected: bool,
+    reopen_appends: u64,
+    segs_at_open: usize,
+    /// segments that legitimately end with bytes that are not frames (torn tail left by a crash step)
+    slack: BTreeSet<u64>,
+}
+
+struct Exp {
+    count: u32,
+    pages: BTreeMap<u32, u64>,
+}
+
+fn expect_of<'a>(it: impl Iterator<Item = &'a Fr>, filt: Option<u64>) -> Exp {
+    let mut e = Exp { count: 0, pages: BTreeMap::new() };
+    for f in it {
+        if let Some(id) = filt {
+            if f.fid != id {
+                continue;
+            }
+        }
+        e.count += 1;
+        e.pages.insert(f.page, f.img);
+    }
+    e
+}
+
+impl Shadow {
+    fn new() -> Shadow {
+        let mut s = Shadow::default();
+        s.cur = 1;
+        s.segs.insert(1, vec![]);
+        s.open_seg = 1;
+        s
+    }
+    fn frames(&self) -> impl Iterator<Item = &Fr> {
+        self.segs.values().flat_map(|v| v.iter())
+    }
+    fn total(&self) -> usize {
+        self.segs.values().map(|v| v.len()).sum()
+    }
+    fn write(&mut self, fid: u64, page: u32, db_size: u32, img: u64, api: u8) {
+        let open_len = if self.cur == self.open_seg { self.open_len } else { 0 };
+        if self.opened_by_open && open_len > 0 {
+            self.reopen_appends += 1;
+        }
+        self.all.insert(img, (fid, page));
+        self.segs.get_mut(&self.cur).unwrap().push(Fr { fid, page, db_size, img, api, open_len });
+    }
+    fn rotate(&mut self) {
+        self.closed.push(self.cur);
+        self.cur += 1;
+        self.segs.insert(self.cur, vec![]);
+    }
+    fn truncate(&mut self) {
+        let cur = self.cur;
+        let old: Vec<u64> = self.segs.keys().copied().filter(|k| *k < cur).collect();
+        for k in old {
+            for f in self.segs.remove(&k).unwrap() {
+                self.discarded.insert(f.img);
+            }
+        }
+        for f in self.segs.get_mut(&cur).unwrap().drain(..) {
+            self.discarded.insert(f.img);
+        }
+        self.slack.clear();
+        self.trunc_since_open = true;
+        self.truncs += 1;
+        self.open_len = 0;
+    }
+    fn reopen(&mut self) {
+        self.open_seg = self.cur;
+        self.open_len = self.segs[&self.cur].len();
+        self.opened_by_open = true;
+        self.closed.clear();
+        self.trunc_since_open = false;
+        self.segs_at_open = self.segs.len();
+    }
+    fn remove_segments(&mut self, nums: &[u64]) {
+        for n in nums {
+            if *n == self.cur {
+                continue;
+            }
+            if let Some(v) = self.segs.remove(n) {
+                for f in v {
+                    self.discarded.insert(f.img);
+                }
+            }
+        }
+    }
+    /// last redo frame for (fid, page) among the existing segments: (image, segment)
+    fn last(&self, fid: u64, page: u32) -> Option<(u64, u64)> {
+        let mut r = None;
+        for (s, v) in &self.segs {
+            for f in v {
+                if f.fid == fid && f.page == page {
+                    r = Some((f.img, *s));
+                }
+            }
+        }
+        r
+    }
+}
+
+// ------------------------------------------------------------------------------------------------
+// observation through the recovery APIs
+
+struct Obs {
+    count: u32,
+    page_count: u32,
+    pages: Vec<PObs>,
+}
+
+/// An MmapStorage whose pages are pre-filled with a sentinel; run `f` on it, decode every page.
+/// The storage file is reused between observations while its size is unchanged (creating and
+/// faulting in a fresh mapped file costs ~10 ms here); it is re-created after `f` grew it.
+struct RecStore {
+    path: PathBuf,
+    st: Option<MmapStorage>,
+}
+
+fn observe(rs: &mut RecStore, init_pages: u32, f: impl FnOnce(&mut MmapStorage) -> eyre::Result<u32>) -> Result<Obs, (bool, String)> {
+    let mut st = match rs.st.take() {
+        Some(s) if s.page_count() == init_pages => s,
+        _ => match MmapStorage::create(&rs.path, init_pages) {
+            Ok(s) => s,
+            Err(e) => return Err((false, format!("harness: cannot create observation storage: {:#}", e))),
+        },
+    };
+    let r = catch(|| -> eyre::Result<Obs> {
+        let sent = SENTINEL.to_le_bytes();
+        for p in 0..init_pages {
+            for c in st.page_mut(p)?.chunks_exact_mut(8) {
+                c.copy_from_slice(&sent);
+            }
+        }
+        let count = f(&mut st)?;
+        let pc = st.page_count();
+        let mut pages = vec![];
+        for p in 0..pc.min(64) {
+            pages.push(decode(st.page(p)?));
+        }
+        Ok(Obs { count, page_count: pc, pages })
+    });
+    if r.is_ok() && st.page_count() == init_pages {
+        rs.st = Some(st);
+    }
+    match r {
+        Ok(Ok(o)) => Ok(o),
+        Ok(Err(e)) => Err((false, format!("{:#}", e))),
+        Err(p) => Err((true, p)),
+    }
+}
+
+struct Diff {
+    page: i64,
+    exp: String,
+    obs: String,
+    cat: &'static str,
+}
+
+fn diff_json(d: &[Diff]) -> Value {
+    Value::Array(d.iter().take(12).map(|x| json!({"page": x.page, "expected": x.exp, "observed": x.obs, "kind": x.cat})).collect())
+}
+
+/// compare an observation with the expectation for file `fid` (None: file ids are ignored)
+fn compare(exp: &Exp, obs: &Obs, init_pages: u32, fid: Option<u64>, all: &HashMap<u64, (u64, u32)>, discarded: &HashSet<u64>) -> Vec<Diff> {
+    let mut out = vec![];
+    let top = (NPAGES.max(obs.page_count)).min(64);
+    for p in 0..top {
+        let o = if p < obs.page_count { Some(obs.pages[p as usize]) } else { None };
+        let e = exp.pages.get(&p).copied();
+        let want = match e {
+            Some(0) => PObs::Zero,
+            Some(x) => PObs::Img(x),
+            None => {
+                if p < init_pages {
+                    PObs::Untouched
+                } else {
+                    PObs::Zero
+                }
+            }
+        };
+        let ok = match (e, o) {
+            (Some(_), None) => false,
+            (None, None) => true,
+            (_, Some(o)) => o == want,
+        };
+        if ok {
+            continue;
+        }
+        let cat = match o {
+            None => "lost",
+            Some(PObs::Untouched) => "lost",
+            Some(PObs::Zero) => {
+                if e.is_some() && p >= init_pages {
+                    "lost"
+                } else {
+                    "zero"
+                }
+            }
+            Some(PObs::Garbled) => "garbled",
+            Some(PObs::Img(x)) => {
+                if discarded.contains(&x) {
+                    "resurrected"
+                } else {
+                    match all.get(&x) {
+                        None => "unknown_image",
+                        Some((f, pg)) => {
+                            if *pg == p && fid.map(|id| id == *f).unwrap_or(true) {
+                                if e.is_some() {
+                                    "stale"
+                                } else {
+                                    "spurious"
+                                }
+                            } else {
+                                "misplaced"
+                            }
+                        }
+                    }
+                }
+            }
+        };
+        out.push(Diff { page: p as i64, exp: pobs_str(want), obs: o.map(pobs_str).unwrap_or_else(|| "page beyond storage end".into()), cat });
+    }
+    if obs.count != exp.count {
+        out.push(Diff {
+            page: -1,
+            exp: format!("{} frames applied", exp.count),
+            obs: format!("{} frames applied", obs.count),
+            cat: if obs.count > exp.count { "count_high" } else { "count_low" },
+        });
+    }
+    out
+}
+
+fn worst(d: &[Diff]) -> &'static str {
+    for c in ["zero", "garbled", "unknown_image", "resurrected", "misplaced", "spurious", "lost", "stale", "count_high", "count_low"] {
+        if d.iter().any(|x| x.cat == c) {
+            return c;
+        }
+    }
+    "none"
+}
+
+// ------------------------------------------------------------------------------------------------
+// byte-level audit of the segment files against the shadow (cause attribution only)
+
+struct Audit {
+    ok: bool,
+    /// default cause (by precedence) when the mismatch kind does not single one out
+    cause: &'static str,
+    cursor0: bool,
+    zero_slot: bool,
+    discarded: bool,
+    torn: bool,
+    detail: Value,
+}
+
+impl Audit {
+    fn bad(cause: &'static str, detail: Value) -> Audit {
+        Audit { ok: false, cause, cursor0: false, zero_slot: false, discarded: false, torn: false, detail }
+    }
+    /// cause consistent with the kind of behavioural mismatch that was observed
+    fn cause_for(&self, kind: &str, sh: &Shadow) -> &'static str {
+        if self.ok {
+            return "layout_ok";
+        }
+        let zero_cause = if sh.truncs > 0 {
+            "zero_hole_after_truncate"
+        } else if sh.zero_tail_injected {
+            "all_zero_frame_validates"
+        } else {
+            "zero_slot_in_log"
+        };
+        let disc_cause = if sh.truncs > 0 { "buffered_frames_flushed_after_truncate" } else { "discarded_frame_in_log" };
+        match kind {
+            "zero" if self.zero_slot => zero_cause,
+            "resurrected" if self.discarded => disc_cause,
+            "lost" | "stale" | "count_low" if self.cursor0 => "cursor_at_zero",
+            "count_high" if self.zero_slot && !self.discarded => zero_cause,
+            "count_high" if self.discarded && !self.zero_slot => disc_cause,
+            _ => self.cause,
+        }
+    }
+}
+
+fn is_zero(b: &[u8]) -> bool {
+    b.iter().all(|x| *x == 0)
+}
+
+fn audit(dir: &Path, sh: &Shadow, crc: &[u64; 256]) -> Audit {
+    let mut on_disk = BTreeSet::new();
+    if let Ok(rd) = std::fs::read_dir(dir) {
+        for e in rd.flatten() {
+            let n = e.file_name().to_string_lossy().to_string();
+            if n.starts_with("wal.") && n.len() == 10 {
+                if let Ok(k) = n[4..].parse::<u64>() {
+                    on_disk.insert(k);
+                }
+            }
+        }
+    }
+    let want: BTreeSet<u64> = sh.segs.keys().copied().collect();
+    if on_disk != want {
+        return Audit::bad("segment_files_mismatch", json!({"on_disk": on_disk, "shadow": want}));
+    }
+    let mut ok = true;
+    let mut cursor0 = false;
+    let mut zero_slot = false;
+    let mut discarded = false;
+    let mut torn = false;
+    let mut first_bad: Option<Value> = None;
+    for (k, frs) in &sh.segs {
+        let bytes = match std::fs::read(dir.join(format!("wal.{:06}", k))) {
+            Ok(b) => b,
+            Err(_) => return Audit::bad("segment_files_mismatch", json!({"unreadable": k})),
+        };
+        let nslots = bytes.len() / FRAME;
+        // a torn tail after the last frame is not a divergence: recovery has to ignore it
+        let slack = sh.slack.contains(k) && bytes.len() > frs.len() * FRAME;
+        if bytes.len() % FRAME != 0 && !slack {
+            ok = false;
+            torn = true;
+        }
+        if nslots != frs.len() && !slack {
+            ok = false;
+        }
+        let mut slot_img: Vec<PObs> = Vec::with_capacity(nslots);
+        for s in 0..nslots {
+            let b = &bytes[s * FRAME..(s + 1) * FRAME];
+            let pay = decode(&b[HDR..]);
+            slot_img.push(pay);
+            if is_zero(&b[..HDR]) && pay == PObs::Zero {
+                zero_slot = true;
+            }
+            if let PObs::Img(x) = pay {
+                if sh.discarded.contains(&x) {
+                    discarded = true;
+                }
+            }
+            let good = s < frs.len() && {
+                let f = &frs[s];
+                let fid = u64::from_le_bytes(b[0..8].try_into().unwrap());
+                let pg = u32::from_le_bytes(b[8..12].try_into().unwrap());
+                let dbs = u32::from_le_bytes(b[12..16].try_into().unwrap());
+                let cs = u64::from_le_bytes(b[24..32].try_into().unwrap());
+                fid == f.fid && pg == f.page && dbs == f.db_size && pay == PObs::Img(f.img) && cs == crc64(crc, crc64(crc, 0, &b[..24]), &b[HDR..])
+            };
+            if !good && !(slack && s >= frs.len()) {
+                ok = false;
+                if first_bad.is_none() {
+                    first_bad = Some(json!({"segment": k, "slot": s, "holds": pobs_str(pay), "shadow_frames_in_segment": frs.len(), "file_len": bytes.len()}));
+                }
+            }
+        }
+        for (j, f) in frs.iter().enumerate() {
+            if f.open_len > 0 && j >= f.open_len {
+                let s = j - f.open_len;
+                if s != j && s < nslots && slot_img[s] == PObs::Img(f.img) {
+                    cursor0 = true;
+                }
+            }
+        }
+        if first_bad.is_none() && !ok {
+            first_bad = Some(json!({"segment": k, "file_len": bytes.len(), "shadow_frames_in_segment": frs.len()}));
+        }
+    }
+    if ok {
+        return Audit { ok: true, cause: "layout_ok", cursor0: false, zero_slot: false, discarded: false, torn: false, detail: Value::Null };
+    }
+    let cause = if cursor0 {
+        "cursor_at_zero"
+    } else if zero_slot && sh.truncs > 0 {
+        "zero_hole_after_truncate"
+    } else if zero_slot && sh.zero_tail_injected {
+        "all_zero_frame_validates"
+    } else if zero_slot {
+        "zero_slot_in_log"
+    } else if discarded && sh.truncs > 0 {
+        "buffered_frames_flushed_after_truncate"
+    } else if discarded {
+        "discarded_frame_in_log"
+    } else if torn || sh.garbage_tail_injected {
+        "append_after_torn_tail"
+    } else {
+        "layout_unknown"
+    };
+    Audit { ok: false, cause, cursor0, zero_slot, discarded, torn: torn || sh.garbage_tail_injected, detail: first_bad.unwrap_or(Value::Null) }
+}
+
+// ------------------------------------------------------------------------------------------------
+// per-sequence result (collected by worker threads, merged into Ctx by the main thread)
+
+#[derive(Default)]
+struct SeqResult {
+    idx: u64,
+    evals: u64,
+    nontrivial: Vec<u64>,
+    counters: BTreeMap<String, u64>,
+    viols: Vec<(String, String, Value)>,
+    sample: Option<Value>,
+    cor_sample: Option<Value>,
+}
+
+impl SeqResult {
+    fn c(&mut self, k: &str, n: u64) {
+        *self.counters.entry(k.to_string()).or_insert(0) += n;
+    }
+}
+
+struct Flags {
+    single: bool,
+    reopen: bool,
+    trunc: bool,
+    rotate: bool,
+    undo: bool,
+    nosync: bool,
+    torn: bool,
+    dbckpt: bool,
+}
+
+struct Seq {
+    dir: PathBuf,
+    scr: PathBuf,
+    wal: Option<Wal>,
+    sh: Shadow,
+    rng: Rng,
+    next_img: u64,
+    fl: Flags,
+    init_pages: u32,
+    src: Option<MmapStorage>,
+    rec: RecStore,
+    tracker: ShardedDirtyTracker,
+    res: SeqResult,
+    crc: [u64; 256],
+    log: Vec<String>,
+    stop: bool,
+    read_page_failed: bool,
+    compared: u64,
+    t_observe: f64,
+    t_corrupt: f64,
+}
+
+const API_NAMES: [&str; 6] = ["write_frame", "write_frame_with_file_id", "write_frames_batch", "write_frames_batch_no_sync", "write_undo_frame", "flush_wal_for_table"];
+
+impl Seq {
+    fn fail(&mut self, assertion: &str, sig: String, mut detail: Value) {
+        if let Some(o) = detail.as_object_mut() {
+            o.insert("ops".into(), json!(self.log));
+            o.insert("sequence_index".into(), json!(self.res.idx));
+        }
+        self.res.viols.push((assertion.to_string(), sig, detail));
+        self.stop = true;
+    }
+
+    fn api<T>(&mut self, name: &'static str, f: impl FnOnce(&mut Wal) -> eyre::Result<T>) -> Option<T> {
+        let mut wal = self.wal.take()?;
+        let r = catch(|| f(&mut wal));
+        self.wal = Some(wal);
+        match r {
+            Ok(Ok(v)) => Some(v),
+            Ok(Err(e)) => {
+                self.fail("api_ok", format!("C03/api_ok/{}", name), json!({"error": format!("{:#}", e)}));
+                None
+            }
+            Err(p) => {
+                self.fail("no_panic", format!("C03/no_panic/{}@{}", name, panic_site(&p)), json!({"panic": p}));
+                None
+            }
+        }
+    }
+
+    fn new_img(&mut self) -> u64 {
+        self.next_img += 1;
+        0x1000_0000_0000_0000 | (self.res.idx << 20) | self.next_img
+    }
+
+    fn pick_fid(&mut self) -> u64 {
+        if self.fl.single {
+            0
+        } else {
+            self.rng.below(NFILES)
+        }
+    }
+
+    fn pick_dbs(&mut self, page: u32) -> u32 {
+        *self.rng.pick(&[0, page + 1, NPAGES, 12])
+    }
+
+    fn open_wal(&mut self, first: bool) -> bool {
+        let dir = self.dir.clone();
+        let use_create = first && self.rng.chance(1, 2);
+        let r = catch(|| if use_create { Wal::create(&dir) } else { Wal::open(&dir) });
+        match r {
+            Ok(Ok(w)) => {
+                self.wal = Some(w);
+                true
+            }
+            Ok(Err(e)) => {
+                self.fail("api_ok", "C03/api_ok/Wal::open".into(), json!({"error": format!("{:#}", e)}));
+                false
+            }
+            Err(p) => {
+                self.fail("no_panic", format!("C03/no_panic/Wal::open@{}", panic_site(&p)), json!({"panic": p}));
+                false
+            }
+        }
+    }
+
+    fn step(&mut self) {
+        let f = &self.fl;
+        // (weight, op)
+        let table: [(u64, u8); 16] = [
+            (15, 0),                                              // write_frame
+            (15, 1),                                              // write_frame_with_file_id
+            (12, 2),                                              // write_frames_batch
+            (if f.nosync { 9 } else { 0 }, 3),                    // write_frames_batch_no_sync
+            (if f.undo && !f.single { 6 } else { 0 }, 4),         // write_undo_frame
+            (7, 5),                                               // flush_wal_for_table
+            (if f.rotate { 6 } else { 0 }, 6),                    // rotate_segment
+            (if f.trunc { 5 } else { 0 }, 7),                     // truncate
+            (if f.trunc && f.single { 3 } else { 0 }, 8),         // checkpoint(storage)
+            (if f.dbckpt { 4 } else { 0 }, 9),                    // rotate + replay closed + remove closed
+            (if f.reopen { 9 } else { 0 }, 10),                   // drop + Wal::open
+            (if f.nosync { 5 } else { 0 }, 11),                   // set_sync_mode
+            (if f.nosync { 2 } else { 0 }, 12),                   // sync
+            (4, 13),                                              // observe
+            (if f.torn { 4 } else { 0 }, 14),                     // torn tail + Wal::open
+            (0, 15),
+        ];
+        let tot: u64 = table.iter().map(|x| x.0).sum();
+        let mut r = self.rng.below(tot);
+        let mut op = 0u8;
+        for (w, o) in table {
+            if r < w {
+                op = o;
+                break;
+            }
+            r -= w;
+        }
+        match op {
+            0 | 1 => {
+                let fid = if op == 0 { 0 } else { self.pick_fid() };
+                let page = self.rng.below(NPAGES as u64) as u32;
+                let dbs = self.pick_dbs(page);
+                let img = self.new_img();
+                let data = image(img);
+                self.log.push(format!("{}(file={},page={},db_size={}) img={:#x}", API_NAMES[op as usize], fid, page, dbs, img));
+                let ok = if op == 0 { self.api("write_frame", |w| w.write_frame(page, dbs, &data)) } else { self.api("write_frame_with_file_id", |w| w.write_frame_with_file_id(page, dbs, &data, fid)) };
+                if ok.is_some() {
+                    self.sh.write(fid, page, dbs, img, op);
+                }
+            }
+            2 | 3 => {
+                let n = self.rng.usize(1, 4);
+                let mut fr = vec![];
+                for _ in 0..n {
+                    let fid = self.pick_fid();
+                    let page = self.rng.below(NPAGES as u64) as u32;
+                    let dbs = self.pick_dbs(page);
+                    let img = self.new_img();
+                    fr.push((page, dbs, image(img), fid, img));
+                }
+                self.log.push(format!("{}({:?})", API_NAMES[op as usize], fr.iter().map(|x| format!("file={},page={},img={:#x}", x.3, x.0, x.4)).collect::<Vec<_>>()));
+                let ok = if op == 2 {
+                    self.api("write_frames_batch", |w| w.write_frames_batch(fr.iter().map(|x| (x.0, x.1, &x.2[..], x.3))))
+                } else {
+                    self.api("write_frames_batch_no_sync", |w| w.write_frames_batch_no_sync(fr.iter().map(|x| (x.0, x.1, &x.2[..], x.3))))
+                };
+                if ok.is_some() {
+                    for x in &fr {
+                        self.sh.write(x.3, x.0, x.1, x.4, op);
+                    }
+                }
+            }
+            4 => {
+                let table_id = self.rng.below(NFILES) as u32;
+                let txn = 1 + self.rng.below(5) as u32;
+                let page = self.rng.below(NPAGES as u64) as u32;
+                let dbs = self.pick_dbs(page);
+                let img = self.new_img();
+                let data = image(img);
+                self.log.push(format!("write_undo_frame(table={},txn={},page={}) img={:#x}", table_id, txn, page, img));
+                if self.api("write_undo_frame", |w| w.write_undo_frame(table_id, txn, page, dbs, &data)).is_some() {
+                    self.sh.write(UNDO_TAG | ((table_id as u64) << 32) | txn as u64, page, dbs, img, 4);
+                }
+            }
+            5 => {
+                // the production write path: dirty pages of one table drained in ascending order
+                let fid = self.pick_fid();
+                let n = self.rng.usize(1, 3);
+                let mut pages = BTreeSet::new();
+                for _ in 0..n {
+                    pages.insert(self.rng.below(NPAGES as u64) as u32);
+                }
+                if self.src.is_none() {
+                    match MmapStorage::create(self.scr.join("src.tbd"), NPAGES) {
+                        Ok(s) => self.src = Some(s),
+                        Err(_) => return,
+                    }
+                }
+                let mut imgs = vec![];
+                for p in &pages {
+                    let img = self.new_img();
+                    let data = image(img);
+                    self.src.as_mut().unwrap().page_mut(*p).unwrap().copy_from_slice(&data);
+                    self.tracker.mark_dirty(fid as u32, *p);
+                    imgs.push((*p, img));
+                }
+                self.log.push(format!("flush_wal_for_table(table={}, dirty={:?})", fid, imgs.iter().map(|x| format!("page={},img={:#x}", x.0, x.1)).collect::<Vec<_>>()));
+                let src = self.src.take().unwrap();
+                let tracker = std::mem::replace(&mut self.tracker, ShardedDirtyTracker::new());
+                let ok = self.api("flush_wal_for_table", |w| WalStoragePerTable::flush_wal_for_table(&tracker, &src, w, fid as u32));
+                self.src = Some(src);
+                if ok.is_some() {
+                    for (p, img) in imgs {
+                        self.sh.write(fid, p, NPAGES, img, 5);
+                    }
+                }
+            }
+            6 => {
+                self.log.push("rotate_segment".into());
+                if self.api("rotate_segment", |w| w.rotate_segment()).is_some() {
+                    self.sh.rotate();
+                }
+            }
+            7 => {
+                self.log.push("truncate".into());
+                if self.api("truncate", |w| w.truncate()).is_some() {
+                    self.sh.truncate();
+                }
+            }
+            8 => {
+                self.log.push("sync + checkpoint(storage)".into());
+                let au = match self.audit_now() {
+                    Some(a) => a,
+                    None => return,
+                };
+                let exp = expect_of(self.sh.frames(), None);
+                let ip = self.init_pages;
+                let wal = self.wal.take().unwrap();
+                let r = observe(&mut self.rec, ip, |st| wal.checkpoint(st));
+                self.wal = Some(wal);
+                self.res.evals += 1;
+                self.compared += exp.count as u64;
+                if self.judge("checkpoint", None, &exp, r, &au) {
+                    if au.ok {
+                        self.sh.truncate();
+                    } else {
+                        self.masked(&au);
+                    }
+                }
+            }
+            9 => {
+                // what SharedDatabase::checkpoint does
+                self.log.push("rotate_segment + replay_segments_to_storage(closed) + remove_closed_segments".into());
+                if self.api("rotate_segment", |w| w.rotate_segment()).is_none() {
+                    return;
+                }
+                self.sh.rotate();
+                let closed = match self.api("get_closed_segments", |w| Ok(w.get_closed_segments())) {
+                    Some(c) => c,
+                    None => return,
+                };
+                let mut nums = vec![];
+                for c in &closed {
+                    let n = c.file_name().map(|x| x.to_string_lossy().to_string()).unwrap_or_default();
+                    if let Ok(k) = n.get(4..).unwrap_or("").parse::<u64>() {
+                        nums.push(k);
+                    }
+                }
+                let mut want = self.sh.closed.clone();
+                want.sort();
+                let mut got = nums.clone();
+                got.sort();
+                if want != got {
+                    self.fail("closed_segments_listed", "C03/closed_segments_listed/get_closed_segments".into(), json!({"expected": want, "observed": got}));
+                    return;
+                }
+                // the closed segments are flushed (their writers were dropped) and the new one is empty
+                let au = audit(&self.dir, &self.sh, &self.crc);
+                let files: Vec<u64> = if self.fl.single { vec![0] } else { (0..NFILES).collect() };
+                for f in files {
+                    let frs: Vec<&Fr> = nums.iter().filter_map(|k| self.sh.segs.get(k)).flat_map(|v| v.iter()).collect();
+                    let exp = expect_of(frs.into_iter(), Some(f));
+                    let r = observe(&mut self.rec, self.init_pages, |st| Wal::replay_segments_to_storage(&closed, st, f));
+                    self.res.evals += 1;
+                    self.compared += exp.count as u64;
+                    if !self.judge("replay_segments_to_storage", Some(f), &exp, r, &au) {
+                        return;
+                    }
+                }
+                if !au.ok {
+                    self.masked(&au);
+                    return;
+                }
+                if self.api("remove_closed_segments", |w| w.remove_closed_segments(&closed)).is_some() {
+                    self.sh.remove_segments(&nums);
+                    self.sh.closed.clear();
+                }
+            }
+            10 => {
+                self.log.push("drop + Wal::open".into());
+                self.wal = None;
+                if self.open_wal(false) {
+                    self.sh.reopen();
+                }
+            }
+            11 => {
+                let m = self.rng.below(3);
+                let mode = [SyncMode::Full, SyncMode::Normal, SyncMode::Off][m as usize];
+                self.log.push(format!("set_sync_mode({:?})", mode));
+                self.api("set_sync_mode", |w| {
+                    w.set_sync_mode(mode);
+                    Ok(())
+                });
+            }
+            12 => {
+                self.log.push("sync".into());
+                self.api("sync", |w| w.sync());
+            }
+            13 => {
+                self.log.push("observe".into());
+                self.check_state(false);
+            }
+            14 => {
+                // crash leaving a torn tail on the current segment, then reopen
+                self.wal = None;
+                let path = self.dir.join(format!("wal.{:06}", self.sh.cur));
+                let len = std::fs::metadata(&path).map(|m| m.len()).unwrap_or(0) as usize;
+                let n = self.sh.segs[&self.sh.cur].len();
+                let au = audit(&self.dir, &self.sh, &self.crc);
+                if !au.ok {
+                    // the log is already not what was written; let the next observation report it
+                    self.log.push("drop + Wal::open (torn-tail step skipped)".into());
+                    if self.open_wal(false) {
+                        self.sh.reopen();
+                    }
+                    self.check_state(false);
+                    return;
+                }
+                let kind = self.rng.below(10);
+                if kind < 6 && n > 0 {
+                    let lo = len.saturating_sub(2 * FRAME);
+                    let at = self.rng.usize(lo, len.saturating_sub(1));
+                    let keep = at / FRAME;
+                    self.log.push(format!("crash: segment {} cut from {} to {} bytes ({} whole frames left) + Wal::open", self.sh.cur, len, at, keep));
+                    let f = std::fs::OpenOptions::new().write(true).open(&path).unwrap();
+                    f.set_len(at as u64).unwrap();
+                    let cur = self.sh.cur;
+                    let gone: Vec<Fr> = self.sh.segs.get_mut(&cur).unwrap().drain(keep..).collect();
+                    for g in gone {
+                        self.sh.discarded.insert(g.img);
+                    }
+                    if at % FRAME != 0 {
+                        self.sh.garbage_tail_injected = true;
+                        self.sh.slack.insert(cur);
+                    }
+                } else if kind < 9 {
+                    let l = *self.rng.pick(&[1usize, 31, 32, 33, 5000, FRAME - 1, FRAME, FRAME + 100]);
+                    let g = self.rng.bytes(l);
+                    self.log.push(format!("crash: {} random bytes after the last frame of segment {} + Wal::open", l, self.sh.cur));
+                    use std::io::Write;
+                    let mut f = std::fs::OpenOptions::new().append(true).open(&path).unwrap();
+                    f.write_all(&g).unwrap();
+                    self.sh.garbage_tail_injected = true;
+                    let cur = self.sh.cur;
+                    self.sh.slack.insert(cur);
+                } else {
+                    let l = *self.rng.pick(&[100usize, FRAME, 2 * FRAME + 5]);
+                    self.log.push(format!("crash: {} zero bytes after the last frame of segment {} + Wal::open", l, self.sh.cur));
+                    use std::io::Write;
+                    let mut f = std::fs::OpenOptions::new().append(true).open(&path).unwrap();
+                    f.write_all(&vec![0u8; l]).unwrap();
+                    if l >= FRAME {
+                        self.sh.zero_tail_injected = true;
+                    } else {
+                        self.sh.garbage_tail_injected = true;
+                        let cur = self.sh.cur;
+                        self.sh.slack.insert(cur);
+                    }
+                }
+                self.res.c("torn_reopen_steps", 1);
+                if self.open_wal(false) {
+                    self.sh.reopen();
+                }
+            }
+            _ => {}
+        }
+    }
+
+    /// returns true if the observation equals the expectation
+    fn judge(&mut self, api: &str, fid: Option<u64>, exp: &Exp, r: Result<Obs, (bool, String)>, au: &Audit) -> bool {
+        let audit_detail = au.detail.clone();
+        match r {
+            Err((true, p)) => {
+                self.fail("no_panic", format!("C03/no_panic/{}@{}", api, panic_site(&p)), json!({"panic": p, "api": api}));
+                false
+            }
+            Err((false, e)) => {
+                self.fail("recover_ok", format!("C03/recover_ok/{}/{}", api, au.cause), json!({"error": e, "api": api, "audit": audit_detail}));
+                false
+            }
+            Ok(obs) => {
+                let d = compare(exp, &obs, self.init_pages, fid, &self.sh.all, &self.sh.discarded);
+                if d.is_empty() {
+                    return true;
+                }
+                let w = worst(&d);
+                let cause = au.cause_for(w, &self.sh);
+                let assertion = match w {
+                    "count_high" if cause == "buffered_frames_flushed_after_truncate" || cause == "discarded_frame_in_log" => "page_last_valid_image",
+                    "zero" | "garbled" | "unknown_image" | "count_high" => "never_written_not_replayed",
+                    "resurrected" | "misplaced" | "spurious" => "page_last_valid_image",
+                    _ => {
+                        if self.sh.reopen_appends > 0 && (cause == "cursor_at_zero" || cause == "append_after_torn_tail") {
+                            "reopen_append_preserves_frames"
+                        } else {
+                            "page_last_valid_image"
+                        }
+                    }
+                };
+                let cause = if cause == "layout_ok" { format!("log_bytes_ok_{}_wrong", api) } else { cause.to_string() };
+                self.fail(
+                    assertion,
+                    format!("C03/{}/{}", assertion, cause),
+                    json!({"api": api, "file_id": fid, "mismatch_kind": w, "diffs": diff_json(&d), "frames_in_shadow": self.sh.total(), "audit": audit_detail, "storage_initial_pages": self.init_pages}),
+                );
+                false
+            }
+        }
+    }
+
+    /// flush, audit the bytes, run every recovery API and read_page against the shadow
+    fn check_state(&mut self, final_: bool) {
+        if self.stop || self.wal.is_none() {
+            return;
+        }
+        let t0 = std::time::Instant::now();
+        self.check_state_inner(final_);
+        self.t_observe += t0.elapsed().as_secs_f64();
+    }
+
+    fn check_state_inner(&mut self, final_: bool) {
+        if self.api("sync", |w| w.sync()).is_none() {
+            return;
+        }
+        let au = audit(&self.dir, &self.sh, &self.crc);
+        let cause = au.cause;
+        let files: Vec<u64> = if self.fl.single { vec![0] } else { (0..NFILES).collect() };
+        let seg_paths: Vec<PathBuf> = self.sh.segs.keys().map(|n| self.dir.join(format!("wal.{:06}", n))).collect();
+        let ip = self.init_pages;
+        for &f in &files {
+            let exp = expect_of(self.sh.frames(), Some(f));
+            let apis: Vec<u8> = if final_ { vec![0, 1] } else { vec![self.rng.below(2) as u8] };
+            for a in apis {
+                let wal = self.wal.take().unwrap();
+                let (name, r) = if a == 0 { ("recover_for_file", observe(&mut self.rec, ip, |st| wal.recover_for_file(st, f))) } else { ("replay_segments_to_storage", observe(&mut self.rec, ip, |st| Wal::replay_segments_to_storage(&seg_paths, st, f))) };
+                self.wal = Some(wal);
+                self.res.evals += 1;
+                self.compared += exp.count as u64;
+                if !self.judge(name, Some(f), &exp, r, &au) {
+                    return;
+                }
+            }
+        }
+        {
+            let wal = self.wal.take().unwrap();
+            let r = observe(&mut self.rec, ip, |st| wal.recover(st));
+            self.wal = Some(wal);
+            self.res.evals += 1;
+            if self.fl.single {
+                let exp = expect_of(self.sh.frames(), None);
+                if !self.judge("recover", None, &exp, r, &au) {
+                    return;
+                }
+            } else if let Err((true, p)) = r {
+                // multi-file log through the file-id-blind `recover`: only totality is demanded
+                self.fail("no_panic", format!("C03/no_panic/recover@{}", panic_site(&p)), json!({"panic": p}));
+                return;
+            }
+        }
+        // read_page: newest frame of every page among the existing segments
+        'rp: for &f in &files {
+            for p in 0..NPAGES {
+                let want = self.sh.last(f, p);
+                let wal = self.wal.take().unwrap();
+                let r = catch(|| wal.read_page(f, p));
+                self.wal = Some(wal);
+                self.res.evals += 1;
+                let (good, got) = match &r {
+                    Ok(Ok(Some(b))) => {
+                        let o = if b.len() == PAGE { decode(b) } else { PObs::Garbled };
+                        (want.map(|w| o == PObs::Img(w.0)).unwrap_or(false), pobs_str(o))
+                    }
+                    Ok(Ok(None)) => (want.is_none(), "None".to_string()),
+                    Ok(Err(e)) => (false, format!("Err({:#})", e)),
+                    Err(pn) => {
+                        let pn = pn.clone();
+                        self.fail("no_panic", format!("C03/no_panic/read_page@{}", panic_site(&pn)), json!({"panic": pn}));
+                        return;
+                    }
+                };
+                if !good {
+                    let c = if !au.ok {
+                        cause.to_string()
+                    } else if self.sh.opened_by_open && want.map(|w| w.1 < self.sh.open_seg).unwrap_or(false) {
+                        "older_segments_not_indexed_on_open".to_string()
+                    } else if self.sh.garbage_tail_injected && self.sh.opened_by_open {
+                        "index_offsets_include_torn_tail".to_string()
+                    } else {
+                        "log_bytes_ok_read_page_wrong".to_string()
+                    };
+                    // recorded, but (when the log bytes are right) the sequence goes on: read_page is a
+                    // side observation and must not keep multi-segment logs out of the corruption phase
+                    let stop = !au.ok;
+                    self.fail(
+                        "read_page_latest",
+                        format!("C03/read_page_latest/{}", c),
+                        json!({"file_id": f, "page": p, "expected": want.map(|w| format!("image {:#x} in segment {}", w.0, w.1)), "observed": got, "segment_open_at_Wal_open": self.sh.open_seg, "audit": au.detail}),
+                    );
+                    self.stop = stop;
+                    self.read_page_failed = true;
+                    break 'rp;
+                }
+            }
+        }
+        if !au.ok {
+            self.masked(&au);
+        }
+    }
+
+    /// bytes differ from what was written but no recovery API shows it on this state: stop the
+    /// sequence (the shadow no longer describes the files), record, no verdict
+    fn masked(&mut self, au: &Audit) {
+        self.res.c(&format!("layout_divergence_without_visible_effect/{}", au.cause), 1);
+        self.stop = true;
+    }
+
+    fn audit_now(&mut self) -> Option<Audit> {
+        self.api("sync", |w| w.sync())?;
+        Some(audit(&self.dir, &self.sh, &self.crc))
+    }
+
+    // --------------------------------------------------------------------------------------------
+    // corruption phase on an audit-clean log
+
+    fn corrupt(&mut self, samples: usize, seq_hash: u64) {
+        let cdir = self.scr.join("cor");
+        let _ = std::fs::remove_dir_all(&cdir);
+        std::fs::create_dir_all(&cdir).unwrap();
+        let segs: Vec<(u64, Vec<u8>, Vec<Fr>)> = self.sh.segs.iter().map(|(k, v)| (*k, std::fs::read(self.dir.join(format!("wal.{:06}", k))).unwrap(), v.clone())).collect();
+        let paths: Vec<PathBuf> = segs.iter().map(|s| cdir.join(format!("wal.{:06}", s.0))).collect();
+        for (s, p) in segs.iter().zip(&paths) {
+            std::fs::write(p, &s.1).unwrap();
+        }
+        // (segment index, kind, mutation); truncation points in descending order so the file only shrinks
+        let mut cases: Vec<(usize, String, Mutn)> = vec![];
+        let mut boundaries = 0u64;
+        for (si, s) in segs.iter().enumerate() {
+            let mut cuts = BTreeSet::new();
+            for b in 0..=s.2.len() {
+                boundaries += 1;
+                for d in DELTAS {
+                    let at = (b * FRAME) as i64 + d;
+                    if at >= 0 && at as usize <= s.1.len() {
+                        cuts.insert(at as usize);
+                    }
+                }
+            }
+            for at in cuts.into_iter().rev() {
+                cases.push((si, format!("cut@{}", at), Mutn::Cut(at)));
+            }
+        }
+        self.res.c("corruption/frame_boundaries_swept", boundaries);
+        let nonempty: Vec<usize> = (0..segs.len()).filter(|i| !segs[*i].2.is_empty()).collect();
+        let last = segs.len() - 1;
+        for _ in 0..samples {
+            let k = self.rng.below(10);
+            if k < 6 && !nonempty.is_empty() {
+                let si = *self.rng.pick(&nonempty);
+                let orig = &segs[si].1;
+                let fr = self.rng.usize(0, segs[si].2.len() - 1);
+                let off = fr * FRAME + if self.rng.chance(1, 3) { self.rng.usize(0, HDR - 1) } else { self.rng.usize(HDR, FRAME - 1) };
+                match k {
+                    0 | 1 | 2 => {
+                        let bit = 1u8 << self.rng.below(8);
+                        let x = orig[off] ^ if self.rng.chance(1, 2) { bit } else { 0xFF };
+                        cases.push((si, format!("flip@{}", off), Mutn::Patch(off, vec![x])));
+                    }
+                    3 | 4 => {
+                        let start = off & !4095;
+                        let end = (start + 4096).min(orig.len());
+                        cases.push((si, format!("zero4k@{}", start), Mutn::Patch(start, vec![0u8; end - start])));
+                    }
+                    _ => {
+                        // zero from a point to the end of the file (lost tail of a preallocated/extended file)
+                        let start = if self.rng.chance(1, 2) { fr * FRAME } else { off };
+                        cases.push((si, format!("zerotail@{}{}", start, if start % FRAME == 0 { "(frame-aligned)" } else { "" }), Mutn::Patch(start, vec![0u8; orig.len() - start])));
+                    }
+                }
+            } else if k < 8 {
+                let l = *self.rng.pick(&[1usize, 32, 4096, FRAME - 1, FRAME, FRAME + 1, 2 * FRAME]);
+                cases.push((last, format!("append_garbage({})", l), Mutn::Append(self.rng.bytes(l))));
+            } else {
+                let l = *self.rng.pick(&[1usize, 32, 4096, FRAME - 1, FRAME, FRAME + 1, 2 * FRAME]);
+                cases.push((last, format!("append_zeros({})", l), Mutn::Append(vec![0u8; l])));
+            }
+        }
+        let files: Vec<u64> = if self.fl.single { vec![0] } else { (0..NFILES).collect() };
+        let ip = self.init_pages;
+        // what each file in cdir holds: None = original bytes, Some(l) = original cut to (at most) l bytes
+        let mut disk: Vec<Option<usize>> = vec![None; segs.len()];
+        let zero_fr = Fr { fid: 0, page: 0, db_size: 0, img: 0, api: 0, open_len: 0 };
+        let flen = |p: &Path| std::fs::metadata(p).map(|m| m.len() as usize).unwrap_or(0);
+        for (ci, (si, kind, mutn)) in cases.iter().enumerate() {
+            use std::os::unix::fs::FileExt;
+            for d in 0..segs.len() {
+                if d != *si && disk[d].is_some() {
+                    std::fs::write(&paths[d], &segs[d].1).unwrap();
+                    disk[d] = None;
+                }
+            }
+            let orig = &segs[*si].1;
+            let m: Vec<u8> = match mutn {
+                Mutn::Cut(at) => {
+                    if flen(&paths[*si]) >= *at {
+                        std::fs::OpenOptions::new().write(true).open(&paths[*si]).unwrap().set_len(*at as u64).unwrap();
+                    } else {
+                        std::fs::write(&paths[*si], &orig[..*at]).unwrap();
+                    }
+                    disk[*si] = Some(*at);
+                    orig[..*at].to_vec()
+                }
+                Mutn::Patch(off, b) => {
+                    if disk[*si].is_some() {
+                        std::fs::write(&paths[*si], orig).unwrap();
+                        disk[*si] = None;
+                    }
+                    std::fs::OpenOptions::new().write(true).open(&paths[*si]).unwrap().write_all_at(b, *off as u64).unwrap();
+                    let mut m = orig.clone();
+                    m[*off..*off + b.len()].copy_from_slice(b);
+                    m
+                }
+                Mutn::Append(b) => {
+                    if disk[*si].is_some() {
+                        std::fs::write(&paths[*si], orig).unwrap();
+                        disk[*si] = None;
+                    }
+                    std::fs::OpenOptions::new().write(true).open(&paths[*si]).unwrap().write_all_at(b, orig.len() as u64).unwrap();
+                    let mut m = orig.clone();
+                    m.extend_from_slice(b);
+                    m
+                }
+            };
+            debug_assert!(ci > 0 || flen(&paths[*si]) == m.len());
+            let m = &m;
+            let orig = &segs[*si].1;
+            let n = segs[*si].2.len();
+            let mut v = 0usize;
+            while v < n && m.len() >= (v + 1) * FRAME && m[v * FRAME..(v + 1) * FRAME] == orig[v * FRAME..(v + 1) * FRAME] {
+                v += 1;
+            }
+            let mut z = 0usize;
+            while m.len() >= (v + z + 1) * FRAME && is_zero(&m[(v + z) * FRAME..(v + z + 1) * FRAME]) {
+                z += 1;
+            }
+            // strict: global prefix; e1: every segment contributes its own prefix; e2/e3: all-zero slots count as frames
+            let mut strict: Vec<Fr> = vec![];
+            let mut e1: Vec<Fr> = vec![];
+            let mut e2: Vec<Fr> = vec![];
+            let mut e3: Vec<Fr> = vec![];
+            let broken = v < n;
+            for (i, s) in segs.iter().enumerate() {
+                if i < *si {
+                    for l in [&mut strict, &mut e1, &mut e2, &mut e3] {
+                        l.extend(s.2.iter().cloned());
+                    }
+                } else if i == *si {
+                    for l in [&mut strict, &mut e1, &mut e2, &mut e3] {
+                        l.extend(s.2[..v].iter().cloned());
+                    }
+                    for _ in 0..z {
+                        e2.push(zero_fr.clone());
+                        e3.push(zero_fr.clone());
+                    }
+                } else {
+                    if !broken {
+                        strict.extend(s.2.iter().cloned());
+                        e2.extend(s.2.iter().cloned());
+                    }
+                    e1.extend(s.2.iter().cloned());
+                    e3.extend(s.2.iter().cloned());
+                }
+            }
+            let via_open = ci % 2 == 0;
+            let mut hard_fail = false;
+            let wal = if via_open {
+                match catch(|| Wal::open(&cdir)) {
+                    Ok(Ok(w)) => Some(w),
+                    Ok(Err(e)) => {
+                        self.fail_cor("recover_ok", format!("C03/recover_ok/Wal::open/corrupt_{}", kind_class(kind)), json!({"error": format!("{:#}", e), "corruption": kind, "segment": segs[*si].0}));
+                        hard_fail = true;
+                        None
+                    }
+                    Err(p) => {
+                        self.fail_cor("no_panic", format!("C03/no_panic/Wal::open@{}", panic_site(&p)), json!({"panic": p, "corruption": kind, "segment": segs[*si].0}));
+                        hard_fail = true;
+                        None
+                    }
+                }
+            } else {
+                None
+            };
+            let mut verdicts = [true; 4]; // matches strict, e1, e2, e3
+            let mut first_diff: Option<Value> = None;
+            let mut apis: Vec<(Option<u64>, &str)> = files.iter().map(|f| (Some(*f), if via_open { "recover_for_file" } else { "replay_segments_to_storage" })).collect();
+            if via_open && self.fl.single {
+                apis.push((None, "recover"));
+            }
+            for (f, api) in apis {
+                if hard_fail {
+                    break;
+                }
+                let r = match (&wal, f) {
+                    (Some(w), Some(f)) => observe(&mut self.rec, ip, |st| w.recover_for_file(st, f)),
+                    (Some(w), None) => observe(&mut self.rec, ip, |st| w.recover(st)),
+                    (None, f) => observe(&mut self.rec, ip, |st| Wal::replay_segments_to_storage(&paths, st, f.unwrap_or(0))),
+                };
+                self.res.evals += 1;
+                match r {
+                    Err((true, p)) => {
+                        self.fail_cor("no_panic", format!("C03/no_panic/{}@{}", api, panic_site(&p)), json!({"panic": p, "corruption": kind, "segment": segs[*si].0}));
+                        hard_fail = true;
+                        break;
+                    }
+                    Err((false, e)) => {
+                        self.fail_cor("recover_ok", format!("C03/recover_ok/{}/corrupt_{}", api, kind_class(kind)), json!({"error": e, "corruption": kind, "segment": segs[*si].0}));
+                        hard_fail = true;
+                        break;
+                    }
+                    Ok(obs) => {
+                        for (i, l) in [&strict, &e1, &e2, &e3].iter().enumerate() {
+                            if !verdicts[i] {
+                                continue;
+                            }
+                            let exp = expect_of(l.iter(), f);
+                            let d = compare(&exp, &obs, self.init_pages, f, &self.sh.all, &self.sh.discarded);
+                            if !d.is_empty() {
+                                verdicts[i] = false;
+                                if i == 0 && first_diff.is_none() {
+                                    first_diff = Some(json!({"api": api, "file_id": f, "diffs": diff_json(&d)}));
+                                }
+                            }
+                        }
+                    }
+                }
+            }
+            drop(wal);
+            // undo in place (a Wal::open that trims invalid tails may have shortened the file: then rewrite it)
+            match mutn {
+                Mutn::Cut(_) => {}
+                Mutn::Patch(off, b) => {
+                    if flen(&paths[*si]) == orig.len() {
+                        std::fs::OpenOptions::new().write(true).open(&paths[*si]).unwrap().write_all_at(&orig[*off..*off + b.len()], *off as u64).unwrap();
+                    } else {
+                        std::fs::write(&paths[*si], orig).unwrap();
+                    }
+                }
+                Mutn::Append(b) => {
+                    if flen(&paths[*si]) == orig.len() + b.len() {
+                        std::fs::OpenOptions::new().write(true).open(&paths[*si]).unwrap().set_len(orig.len() as u64).unwrap();
+                    } else {
+                        std::fs::write(&paths[*si], orig).unwrap();
+                    }
+                }
+            }
+            if hard_fail {
+                continue;
+            }
+            self.res.c(&format!("corruption/{}", kind_class(kind)), 1);
+            self.res.nontrivial.push(fnv(format!("{}/{}/{}", seq_hash, si, kind).as_bytes()));
+            if self.res.cor_sample.is_none() && broken {
+                self.res.cor_sample = Some(json!({"sequence_index": self.res.idx, "segments": segs.iter().map(|s| json!({"segment": s.0, "frames": s.2.len()})).collect::<Vec<_>>(), "corruption": kind, "of_segment": segs[*si].0, "intact_leading_frames": v, "held": verdicts[0]}));
+            }
+            if verdicts[0] {
+                continue;
+            }
+            let det = json!({
+                "corruption": kind, "segment": segs[*si].0, "segments": segs.iter().map(|s| json!({"segment": s.0, "frames": s.2.iter().map(|f| format!("file={},page={},img={:#x}", f.fid, f.page, f.img)).collect::<Vec<_>>()})).collect::<Vec<_>>(),
+                "intact_leading_frames_of_corrupted_segment": v, "all_zero_slots_after_them": z, "observed_via": if via_open { "Wal::open + recover_for_file" } else { "replay_segments_to_storage" },
+                "first_difference_from_longest_intact_prefix": first_diff,
+            });
+            if verdicts[2] {
+                self.fail_cor("never_written_not_replayed", "C03/never_written_not_replayed/all_zero_frame_validates".into(), det);
+            } else if verdicts[1] {
+                let clean = kind.starts_with("cut@") && m.len() % FRAME == 0;
+                self.fail_cor("no_frame_after_invalid", format!("C03/no_frame_after_invalid/next_segment_replayed_after_{}", if clean { "clean_cut" } else { "bad_frame" }), det);
+            } else if verdicts[3] {
+                self.fail_cor("never_written_not_replayed", "C03/never_written_not_replayed/all_zero_frame_validates".into(), det);
+            } else {
+                self.fail_cor("prefix_exact", format!("C03/prefix_exact/corrupt_{}", kind_class(kind)), det);
+            }
+        }
+    }
+
+    fn fail_cor(&mut self, assertion: &str, sig: String, mut detail: Value) {
+        if let Some(o) = detail.as_object_mut() {
+            o.insert("ops".into(), json!(self.log));
+            o.insert("sequence_index".into(), json!(self.res.idx));
+        }
+        self.res.viols.push((assertion.to_string(), sig, detail));
+    }
+}
+
+enum Mutn {
+    Cut(usize),
+    Patch(usize, Vec<u8>),
+    Append(Vec<u8>),
+}
+
+fn kind_class(kind: &str) -> &str {
+    kind.split(|c| c == '@' || c == '(').next().unwrap_or(kind)
+}
+
+fn run_sequence(idx: u64, seed: u64, base: &Path, lane: u64, cor_num: u64, cor_den: u64, cor_samples: usize, crc: &[u64; 256]) -> SeqResult {
+    let t_seq = std::time::Instant::now();
+    let mut rng = Rng::new(seed);
+    let scr = base.join(format!("lane{}", lane));
+    let dir = scr.join("wal");
+    let _ = std::fs::remove_dir_all(&scr);
+    std::fs::create_dir_all(&scr).unwrap();
+    let fl = Flags {
+        single: rng.chance(3, 10),
+        reopen: rng.chance(45, 100),
+        trunc: rng.chance(40, 100),
+        rotate: rng.chance(50, 100),
+        undo: rng.chance(20, 100),
+        nosync: rng.chance(40, 100),
+        torn: rng.chance(15, 100),
+        dbckpt: rng.chance(25, 100),
+    };
+    let init_pages = if rng.chance(1, 4) { 1 + rng.below(NPAGES as u64) as u32 } else { NPAGES };
+    let nops = rng.usize(8, 40);
+    let rec_path = scr.join("rec.tbd");
+    let mut s = Seq {
+        dir,
+        scr,
+        wal: None,
+        sh: Shadow::new(),
+        rng,
+        next_img: 0,
+        fl,
+        init_pages,
+        src: None,
+        rec: RecStore { path: rec_path, st: None },
+        tracker: ShardedDirtyTracker::new(),
+        res: SeqResult { idx, ..Default::default() },
+        crc: *crc,
+        log: vec![],
+        stop: false,
+        read_page_failed: false,
+        compared: 0,
+        t_observe: 0.0,
+        t_corrupt: 0.0,
+    };
+    s.log.push(format!(
+        "flags: single_file={} reopen={} truncate={} rotate={} undo={} nosync={} torn={} db_checkpoint={} storage_initial_pages={}",
+        s.fl.single, s.fl.reopen, s.fl.trunc, s.fl.rotate, s.fl.undo, s.fl.nosync, s.fl.torn, s.fl.dbckpt, init_pages
+    ));
+    if !s.open_wal(true) {
+        return s.res;
+    }
+    if !s.rng.chance(1, 3) {
+        // fsync per frame is the default mode; most sequences run without it to stay inside the time budget
+        s.api("set_sync_mode", |w| {
+            w.set_sync_mode(SyncMode::Normal);
+            Ok(())
+        });
+        s.log.push("set_sync_mode(Normal)".into());
+    }
+    for _ in 0..nops {
+        if s.stop {
+            break;
+        }
+        s.step();
+    }
+    if !s.stop {
+        // final: drop (flushes), reopen as a recovering process would, observe everything
+        s.log.push("drop + Wal::open + observe".into());
+        s.wal = None;
+        if s.open_wal(false) {
+            s.sh.reopen();
+            s.check_state(true);
+        }
+    }
+    let tags: String = s.log.iter().map(|l| l.split(|c| c == '(' || c == ' ').next().unwrap_or("").to_string()).collect::<Vec<_>>().join(",");
+    let seq_hash = fnv(tags.as_bytes());
+    if s.compared > 0 {
+        s.res.nontrivial.push(seq_hash);
+    }
+    s.res.c("sequences", 1);
+    s.res.c("frames_written", s.next_img);
+    if s.sh.reopen_appends > 0 {
+        s.res.c("sequences_with_append_after_reopen", 1);
+    }
+    if idx < 3 {
+        s.res.sample = Some(json!({"sequence_index": idx, "ops": s.log, "frames_in_final_log": s.sh.total(), "segments": s.sh.segs.len(), "violations": s.res.viols.len()}));
+    }
+    let clean = !s.stop && s.res.viols.iter().all(|v| v.0 == "read_page_latest");
+    if clean {
+        s.res.c("sequences_clean_to_the_end", 1);
+    }
+    if clean && s.sh.total() > 0 && s.rng.chance(cor_num, cor_den) {
+        s.wal = None;
+        s.res.c("corruption/sequences_swept", 1);
+        let t0 = std::time::Instant::now();
+        s.corrupt(cor_samples, seq_hash);
+        s.t_corrupt = t0.elapsed().as_secs_f64();
+    }
+    s.res.c("cpu_ms/observe", (s.t_observe * 1000.0) as u64);
+    s.res.c("cpu_ms/corrupt", (s.t_corrupt * 1000.0) as u64);
+    s.res.c("cpu_ms/sequence_total", (t_seq.elapsed().as_secs_f64() * 1000.0) as u64);
+    s.wal = None;
+    s.src = None;
+    s.res
+}
+
+/// Miri: no mmap. Drive the Wal with a few frames and read the segment back with the public
+/// sequential reader (`WalSegment::read_frame`), the function every recovery path uses.
+fn run_miri(ctx: &mut Ctx, base: &Path, rng: &mut Rng) {
+    for i in 0..3u64 {
+        let dir = base.join(format!("miri{}", i));
+        let mut expected: Vec<(u64, u32, u64)> = vec![];
+        let r = catch(|| -> eyre::Result<Vec<(u64, u32, PObs)>> {
+            let wal = Wal::create(&dir)?;
+            wal.set_sync_mode(SyncMode::Off);
+            let n = 1 + rng.below(3);
+            for k in 0..n {
+                let img = 0x2000_0000_0000_0000 | (i << 8) | k;
+                let fid = rng.below(NFILES);
+                let page = rng.below(NPAGES as u64) as u32;
+                wal.write_frame_with_file_id(page, NPAGES, &image(img), fid)?;
+                expected.push((fid, page, img));
+            }
+            drop(wal);
+            if i > 0 {
+                let wal = Wal::open(&dir)?;
+                let img = 0x2000_0000_0000_0000 | (i << 8) | 0xF0;
+                wal.write_frame_with_file_id(1, NPAGES, &image(img), 1)?;
+                expected.push((1, 1, img));
+                drop(wal);
+            }
+            let mut seg = WalSegment::open(&dir.join("wal.000001"), 1)?;
+            let mut got = vec![];
+            while let Ok((h, data)) = seg.read_frame() {
+                got.push((h.file_id, h.page_no, decode(&data)));
+            }
+            Ok(got)
+        });
+        ctx.eval();
+        match r {
+            Ok(Ok(got)) => {
+                let want: Vec<(u64, u32, PObs)> = expected.iter().map(|e| (e.0, e.1, PObs::Img(e.2))).collect();
+                ctx.nontrivial(fnv(format!("miri{}/{}", i, want.len()).as_bytes()));
+                if got != want {
+                    let sig = if i > 0 { "C03/reopen_append_preserves_frames/cursor_at_zero" } else { "C03/page_last_valid_image/log_bytes_ok_read_frame_wrong" };
+                    ctx.violation(sig.split('/').nth(1).unwrap(), sig, json!({"expected": format!("{:?}", want), "observed": format!("{:?}", got)}));
+                }
+            }
+            Ok(Err(e)) => {
+                ctx.violation("api_ok", "C03/api_ok/miri_sequence", json!({"error": format!("{:#}", e)}));
+            }
+            Err(p) => {
+                ctx.violation("no_panic", &format!("C03/no_panic/miri_sequence@{}", panic_site(&p)), json!({"panic": p}));
+            }
+        }
+    }
+}
+
+pub fn run(a: &Args) -> i32 {
+    let mut ctx = Ctx::new(
+        "C03",
+        &a.tier,
+        a.seed,
+        "exploration",
+        "sequences: 8..40 ops over 4 files x 8 pages drawn from {write_frame, write_frame_with_file_id, write_frames_batch, write_frames_batch_no_sync, write_undo_frame, flush_wal_for_table, rotate_segment, truncate, checkpoint, rotate+replay closed+remove closed, drop+Wal::open, torn-tail crash+Wal::open, set_sync_mode, sync, observe}, each sequence with a random subset of these features enabled; observed with recover_for_file, replay_segments_to_storage, recover (single-file logs), read_page against a shadow log of self-identifying page images. corruption: on a sample of sequences whose segment bytes equal the shadow, every frame boundary of every segment file +-{0,1,31,32,33,8192} as a truncation point (exhaustive per file) + sampled flips/4KiB zero fills/zero tails/appended garbage/appended zeros; expected = frames of the longest intact prefix across segments. distinct_nontrivial = distinct op-kind sequences that compared >= 1 frame + distinct (sequence, segment, corruption) cases",
+    );
+    let crc = crc_table();
+    if crc64(&crc, 0, b"123456789") != 0x6C40_DF5F_0B49_7347 {
+        ctx.inconclusive("harness CRC-64/ECMA-182 self-test failed");
+        return ctx.finish();
+    }
+    let mut master = Rng::derive(a.seed, 3);
+    let base = PathBuf::from(format!("/verif/scratch/c03-{}", std::process::id()));
+    let _ = std::fs::remove_dir_all(&base);
+    std::fs::create_dir_all(&base).expect("scratch dir");
+    if std::env::var("C03_BENCH").is_ok() {
+        let d = base.join("b");
+        let w = Wal::create(&d).unwrap();
+        w.set_sync_mode(SyncMode::Normal);
+        for i in 0..25u64 {
+            w.write_frame_with_file_id((i % 8) as u32, 8, &image(i + 1), i % 4).unwrap();
+        }
+        drop(w);
+        let bytes = std::fs::read(d.join("wal.000001")).unwrap();
+        let n = 200;
+        let mut brs = RecStore { path: base.join("r.tbd"), st: None };
+        let t = std::time::Instant::now();
+        for _ in 0..n {
+            let _ = observe(&mut brs, 8, |_st| Ok(0));
+        }
+        println!("observe(create+fill+decode): {:.3} ms", t.elapsed().as_secs_f64() * 1000.0 / n as f64);
+        let t = std::time::Instant::now();
+        for _ in 0..n {
+            std::fs::write(d.join("wal.000001"), &bytes).unwrap();
+        }
+        println!("fs::write {} bytes: {:.3} ms", bytes.len(), t.elapsed().as_secs_f64() * 1000.0 / n as f64);
+        let t = std::time::Instant::now();
+        for _ in 0..n {
+            let _w = Wal::open(&d).unwrap();
+        }
+        println!("Wal::open+drop: {:.3} ms", t.elapsed().as_secs_f64() * 1000.0 / n as f64);
+        let w = Wal::open(&d).unwrap();
+        let mut st = MmapStorage::create(base.join("r2.tbd"), 8).unwrap();
+        let t = std::time::Instant::now();
+        for _ in 0..n {
+            w.recover_for_file(&mut st, 1).unwrap();
+        }
+        println!("recover_for_file 25 frames: {:.3} ms", t.elapsed().as_secs_f64() * 1000.0 / n as f64);
+        let t = std::time::Instant::now();
+        for _ in 0..n {
+            let _ = WalSegment::open(&d.join("wal.000001"), 1).unwrap();
+        }
+        println!("WalSegment::open+drop: {:.3} ms", t.elapsed().as_secs_f64() * 1000.0 / n as f64);
+        let t = std::time::Instant::now();
+        for _ in 0..n {
+            let _ = crc64(&crc, 0, &bytes);
+        }
+        println!("own crc over file: {:.3} ms", t.elapsed().as_secs_f64() * 1000.0 / n as f64);
+        let _ = std::fs::remove_dir_all(&base);
+        return 0;
+    }
+    if cfg!(miri) {
+        run_miri(&mut ctx, &base, &mut master);
+        let _ = std::fs::remove_dir_all(&base);
+        ctx.assumptions.push("Miri run: three tiny sequences observed through WalSegment::read_frame only (no mmap under Miri)".into());
+        return ctx.finish();
+    }
+    let quick = ctx.quick();
+    let nseq: u64 = if quick { 300 } else { 5000 };
+    let (cor_num, cor_den, cor_samples): (u64, u64, usize) = if quick { (10, 100, 24) } else { (14, 100, 24) };
+    let deadline = if quick { 50.0 } else { 540.0 };
+    let seeds: Vec<u64> = (0..nseq).map(|_| master.next()).collect();
+    let start = std::time::Instant::now();
+    let mut results: Vec<SeqResult> = vec![];
+    let skipped = std::sync::atomic::AtomicU64::new(0);
+    std::thread::scope(|sc| {
+        let mut hs = vec![];
+        for lane in 0..LANES {
+            let seeds = &seeds;
+            let base = &base;
+            let crc = &crc;
+            let skipped = &skipped;
+            hs.push(sc.spawn(move || {
+                let mut out = vec![];
+                let mut i = lane;
+                while i < nseq {
+                    if start.elapsed().as_secs_f64() > deadline {
+                        skipped.fetch_add(1, std::sync::atomic::Ordering::Relaxed);
+                    } else {
+                        let idx = i;
+                        match catch(|| run_sequence(idx, seeds[idx as usize], base, lane, cor_num, cor_den, cor_samples, crc)) {
+                            Ok(r) => out.push(r),
+                            Err(p) => {
+                                let mut r = SeqResult { idx, ..Default::default() };
+                                r.c("harness_panics", 1);
+                                r.viols.push(("harness".into(), "HARNESS".into(), json!({"panic": p})));
+                                out.push(r);
+                            }
+                        }
+                    }
+                    i += LANES;
+                }
+                out
+            }));
+        }
+        for h in hs {
+            results.extend(h.join().expect("lane thread"));
+        }
+    });
+    results.sort_by_key(|r| r.idx);
+    let mut cor_samples_taken = 0;
+    // debugging aid: C03_DUMP=<file> gets one JSON line per failed case (the evidence keeps only a few)
+    let mut dump = std::env::var("C03_DUMP").ok().and_then(|p| std::fs::File::create(p).ok());
+    for r in results {
+        ctx.evals(r.evals);
+        for h in r.nontrivial {
+            ctx.nontrivial(h);
+        }
+        for (k, n) in r.counters {
+            ctx.count(&k, n);
+        }
+        if let Some(s) = r.sample {
+            ctx.sample(s);
+        }
+        if let Some(s) = r.cor_sample {
+            if cor_samples_taken < 3 {
+                cor_samples_taken += 1;
+                ctx.sample(s);
+            }
+        }
+        for (assertion, sig, detail) in r.viols {
+            if sig == "HARNESS" {
+                ctx.inconclusive(&format!("harness panic in sequence {}: {}", r.idx, detail["panic"]));
+                continue;
+            }
+            ctx.count(&format!("failed/{}", sig), 1);
+            if let Some(d) = dump.as_mut() {
+                use std::io::Write;
+                let _ = writeln!(d, "{}", json!({"sig": sig, "detail": detail}));
+            }
+            ctx.violation(&assertion, &sig, detail);
+        }
+    }
+    let sk = skipped.load(std::sync::atomic::Ordering::Relaxed);
+    if sk > 0 {
+        ctx.count("sequences_skipped_at_deadline", sk);
+    }
+    ctx.exhaustive = Some(false);
+    ctx.extra.insert("truncation_sweep".into(), json!("exhaustive over the frame boundaries (x 11 byte deltas) of every segment file of each swept sequence; the swept sequences are a random sample"));
+    ctx.assumptions.push("corruption cases are run only on logs whose bytes equal the shadow layout (audited with an independent CRC-64/ECMA-182); logs already damaged by a build-phase defect are reported there and not swept".into());
+    ctx.assumptions.push("`Wal::recover` ignores file ids, so its page contents are compared only for single-file logs; on multi-file logs only totality is demanded".into());
+    ctx.assumptions.push("frames written by write_frames_batch_no_sync / non-Full sync modes are made visible with Wal::sync() before a live observation; no power-loss model here (C01/C17 cover that)".into());
+    let _ = std::fs::remove_dir_all(&base);
+    ctx.finish()
 }
